@@ -18,13 +18,20 @@ ASSUME = [
     "equal document IDs carry equal documents (a retried bulk repeats its documents unchanged); documents are non-empty",
     "64/32-bit header fields do not wrap (sizes below 2^64 / 2^32); DocPos packing (offset < 2^30) not modelled",
     "index workers modelled sequentially; a single active fraction, no sealing/retention inside the history",
+    "concurrent bulks: the model's atomic step is the writer's locked unit (docs block, then its meta block); "
+    "concurrent acknowledged bulks are consecutive bulk steps in lock order (theorem C01_locked_units_sequential); "
+    "crashes in the middle of a concurrent group are not generated",
     "store = FracManager level (fracmanager.Load / Append / Searcher / Fetcher) in a child process; GrpcV1.Bulk not driven",
 ]
 RULE = ("witness family [start; bulk; crash inside next bulk at operation k torn at t; start; bulk (new or retry); start ...] "
         "for every operation boundary and boundary/random (thorough: all) torn lengths; random histories of 1-4 "
         "(thorough 1-8) rounds of {0-2 bulks (new or retried), kill | power loss | crash inside a bulk (op, torn "
         "length, power-loss cuts), optional crash inside the start-up, start}; after every start every submitted "
-        "document is fetched and every token searched. non-trivial = a crash, then an acknowledged bulk, then a start; "
+        "document is fetched and every token searched; concurrent stream: 2-3 bulks of very different size handed "
+        "concurrently to the real store (traced: ~8-20 documents vs 1, compared with the model in lock order; "
+        "untraced big trials: 600-2500 (thorough 6000) documents of 200-1500 bytes vs 1 short document, checked "
+        "directly), then power loss or kill, start, fetch of every acknowledged document; on every real .meta file "
+        "each block's Ext2 must equal the sum of the preceding Ext1 (ext_chain_ok). non-trivial = a crash, then an acknowledged bulk, then a start; "
         "distinct by history")
 
 
